@@ -55,8 +55,11 @@ def gen_value(rng, kind, tricky):
     if kind == 'bool':
         return rng.choice([True, False])
     if kind == 'list':
-        return rng.choice([[1, 2], ['a'], [{'Key': 'env', 'Value': rng.choice(['prod', 'dev'])}], [], [[1], [2, 3]]])
-    return rng.choice([{'Statement': [{'Effect': rng.choice(['Allow', 'Deny'])}], 'Version': rng.choice(['2012', 2012])}, {'k': rng.choice([1, 'v']), 'l': [1]}, {}])
+        # lists are compared position by position: members in an order that is neither ascending by value nor by rendered text
+        return rng.choice([[1, 2], ['a'], [{'Key': 'env', 'Value': rng.choice(['prod', 'dev'])}], [], [[1], [2, 3]],
+                           [80, 443, 8080], [9, 10, 2], ['b', 'a', 'c'], [[2, 3], [1]], [{'Key': 'z', 'Value': 'q'}, {'Key': 'a', 'Value': 'p'}], [True, False, 1, 'x']])
+    return rng.choice([{'Statement': [{'Effect': rng.choice(['Allow', 'Deny'])}], 'Version': rng.choice(['2012', 2012])}, {'k': rng.choice([1, 'v']), 'l': [1]}, {},
+                       {'Zones': ['us-west-2b', 'us-west-2a'], 'Ports': [9, 10]}, {'z': 1, 'a': {'y': [3, 1, 2], 'b': 0}}])
 
 
 def gen_template(rng, k):
